@@ -775,6 +775,12 @@ package server
 //@   ghost after call startGoroutine: ghost.dispatcherStarted := true
 //@   ensures [C18:a-term-of-leadership-gets-its-dispatcher] result == nil && a.config.ActivityStream.Enabled ==> ghost.dispatcherStarted
 //@   call startGoroutine requires [C18:a-channel-made-for-this-term-is-in-place-before-its-dispatcher-starts] a.leadershipLostCh != nil && fresh(a.leadershipLostCh)
+// BecomeFollower ("... and stopped with controller leadership"): the dispatcher looks for the end of its term in the
+// manager's channel FIELD, at every step - so the closed channel has to stay there for it to see (a nil channel is never
+// ready: the deposed dispatcher would go on publishing beside the next leader's)
+//@ func (*activityManager).BecomeFollower serves C18
+//@   assumes a != nil && a.Server != nil && a.config != nil
+//@   ensures [C18:the-lost-term's-channel-stays-where-its-dispatcher-looks-for-it] a.leadershipLostCh == old(a.leadershipLostCh)
 //@ func (*activityManager).dispatch serves C18
 //@   requires a != nil
 //@   ghost after call LastPublishedRaftIndex: ghost.start := uint64(ret0 + 1)
